@@ -7,6 +7,8 @@
 (*               the real parser parsed back)                              *)
 (*   ev = "acl"  acl = entries + default                                   *)
 (*   ev = "tok"  ts = token string given to the real parser, ok = accepted *)
+(*   ev = "wp"   pols = weighted policies [w, hasacl, acl, haspat, pat];   *)
+(*               real = weight chosen by match_highest (-1 = none)         *)
 (* P-verdict on the real output ("PV"): Lang / Acl (verdict differs from   *)
 (* the denotational semantics), Unsound (the parser accepts a string that  *)
 (* is not in the documented syntax), Reject (the parser rejects a string   *)
@@ -21,6 +23,12 @@ VARIABLES c, l
 
 Bit(b) == IF b THEN 1 ELSE 0
 Say(tag, ln, kind, x) == PrintT(<<tag, ToJson([l |-> ln, kind |-> kind, x |-> x])>>)
+
+\* Policy { acl, hop_pattern }: every part that is present must allow; weight -1 = no policy allows
+PolAllows(pol, w) == (pol.haspat => PatAllows(pol.pat, w)) /\ (pol.hasacl => AclAllows(pol.acl, w))
+Best(pols, w) ==
+  LET S == {k \in 1..Len(pols) : PolAllows(pols[k], w)}
+  IN IF S = {} THEN -1 ELSE LET k == CHOOSE k \in S : \A m \in S : pols[k].w >= pols[m].w IN pols[k].w
 
 PatLine(e, pat) ==
   \A x \in 1..Len(e.ws) :
@@ -40,6 +48,9 @@ LineOk ==
                        ELSE IF ~e.ok /\ r.ok THEN Say("PV", l, "Reject", 0)
                        ELSE IF ~e.ok THEN TRUE
                        ELSE PatLine(e, r.pat)
+    [] e.ev = "wp"  -> \* WeightedPolicies::match_highest: the policy of the highest weight that allows the hops
+                       \A x \in 1..Len(e.ws) :
+                          e.real[x] = Best(e.pols, e.ws[x]) \/ Say("PV", l, "Weighted", x)
     [] OTHER -> TRUE
 
 NChunks == (Len(Rec) - 1 + CHUNK - 1) \div CHUNK
